@@ -221,6 +221,9 @@ def cv_cases():
             "cap": st.one_of(st.none(), st.sampled_from([1.0, 1.25, 1.5, 2.0, 2.5, 3.0])),
             "lm1": st.one_of(st.just(False), st.sampled_from([-1.0, -0.25])),
             "minus": st.booleans(),
+            # the same system translated along the order-parameter axis (all values are multiples of 1/4: exact); the
+            # negatives of the cap values put the cap, an interface or lambda_-1 on 0.0
+            "shift": st.sampled_from([0.0, 0.0, -1.0, -1.25, -1.5, -2.0, -2.5, -3.0, 0.25, 1.0]),
         }
     )
 
@@ -248,9 +251,14 @@ def body_cv(rec, c):
     cap = c["cap"]
     if cap is not None and not (intf[0] < cap <= intf[-1]):
         cap = None
-    got = calc_cv_vector(path, intf, moves, lambda_minus_one=c["lm1"], cap=cap, minus=c["minus"])
+    sh = c.get("shift", 0.0)
+    if sh:
+        path = mk_path([x + sh for x in o])
+    got = calc_cv_vector(path, [x + sh for x in intf], moves, lambda_minus_one=(c["lm1"] + sh if c["lm1"] is not False else False),
+                         cap=(cap + sh if cap is not None else None), minus=c["minus"])
     on = any(x in intf for x in o)
-    rec.case(key=c, nontrivial=("wf" in moves[1:]) or on, classes=["cv", "cv:minus" if c["minus"] else "cv:plus"],
+    rec.case(key=c, nontrivial=("wf" in moves[1:]) or on, classes=["cv", "cv:minus" if c["minus"] else "cv:plus"]
+             + (["cv:cap-at-0.0"] if cap is not None and cap + sh == 0.0 else []) + (["cv:translated"] if sh else []),
              sample={"orders": o, "interfaces": intf, "moves": moves, "cap": cap, "cv": list(got)} if len(o) < 8 else None)
     if c["minus"]:
         lam = c["lm1"] if c["lm1"] is not False else intf[0]
@@ -285,6 +293,7 @@ def has_cases():
             "cap": st.sampled_from([1.0, 1.5, 2.0, 3.0]),
             "u": st.floats(0, 1, exclude_max=True),
             "near": st.sampled_from([-1, 0, 1, 2]),
+            "shift": st.sampled_from([0.0, 0.0, -1.0, -1.5, -2.0, -3.0, 0.5]),
         }
     )
 
@@ -322,9 +331,10 @@ def body_has(rec, c):
         base = float(pacc)
         u = {-1: math.nextafter(base, 0.0), 0: base, 1: math.nextafter(base, 1.0)}[c["near"]]
     rng = ScriptRng([u])
-    acc, status = high_acc_swap([mk_path(pa), mk_path(pb)], rng, intf0, intf1, c["moves"])
+    sh = c.get("shift", 0.0)  # translated system: same weights, same decision
+    acc, status = high_acc_swap([mk_path([x + sh for x in pa]), mk_path([x + sh for x in pb])], rng, [x + sh for x in intf0], [x + sh for x in intf1], c["moves"])
     nt = pacc is not None and 0 < pacc < 1
-    rec.case(key=c, nontrivial=nt, classes=["has", "has:frac" if nt else "has:trivial"])
+    rec.case(key=c, nontrivial=nt, classes=["has", "has:frac" if nt else "has:trivial"] + (["has:cap-at-0.0"] if c["cap"] + sh == 0.0 else []))
     rec.check(rng.n == 1, "has:draws")
     rec.check((status == "ACC") == bool(acc) and status in ("ACC", "HAS"), "has:status")
     if pacc is None:
